@@ -61,6 +61,9 @@ const minNameTokenContainsLength = 2
 // URN based contains conditions ust be at least 3 characters long as the ES implementation uses trigrams
 const minURNContainsLength = 3
 
+// numbers with exponents beyond this aren't accepted as condition values
+const maxNumberExponent = 400
+
 var isNumberRegex = regexp.MustCompile(`^\d+(\.\d+)?$`)
 
 // QueryNode is the base for nodes in our query parse tree
@@ -101,7 +104,17 @@ func (c *Condition) Value() string { return c.value }
 
 // ValueAsNumber returns the value as a number if possible, or an error if not
 func (c *Condition) ValueAsNumber() (decimal.Decimal, error) {
-	return decimal.NewFromString(c.value)
+	d, err := decimal.NewFromString(c.value)
+	if err != nil {
+		return d, err
+	}
+
+	// a value like 1e999999999 is a valid decimal but comparing anything with it is unboundedly expensive, so only
+	// accept exponents in (a little more than) the range of a double
+	if exp := d.Exponent(); exp > maxNumberExponent || exp < -maxNumberExponent {
+		return decimal.Zero, fmt.Errorf("number %s is out of range", c.value)
+	}
+	return d, nil
 }
 
 // ValueAsDate returns the value as a date if possible, or an error if not
